@@ -225,4 +225,55 @@ theorem orbit_isCycle (step inv : Nat → Nat) (P : Nat → Prop) (hstep : ∀ x
       simp only [List.get_eq_getElem]
       rw [orbit_getElem _ _ _ _ _ hi, orbit_getElem _ _ _ _ _ hj]; exact hij)
     exact Fin.mk.inj this
+/-- draining from the back only: the cycle in reverse order, at most `fuel` elements -/
+theorem CI_drainBack_spec {step back cyc n} (h : IsCycle step back cyc n) :
+    ∀ fuel b c, CIInv cyc n 0 b c →
+      CI.drainBack back c fuel = (List.range' b (min fuel (n - b))).map (fun i => cyc (n - i - 1)) := by
+  intro fuel
+  induction fuel with
+  | zero => intro b c _; simp [CI.drainBack]
+  | succ f ih =>
+    intro b c hi
+    by_cases hlt : 0 + b < n
+    · obtain ⟨h1, h2⟩ := CI_nextBack_inv h hi hlt
+      cases hnb : c.nextBack back with
+      | mk c' r =>
+        rw [hnb] at h1 h2
+        simp only at h1 h2
+        subst h1
+        have hm : min (f + 1) (n - b) = min f (n - (b + 1)) + 1 := by omega
+        simp only [CI.drainBack, hnb, ih _ _ h2, hm, List.range'_succ, List.map_cons]
+    · have hd := (CI_done_stays (step := step) (back := back) hi hlt).2
+      have hm : min (f + 1) (n - b) = 0 := by omega
+      simp only [CI.drainBack, hd, hm, List.range'_zero, List.map_nil]
+
+/-- with enough fuel: the reversed forward order -/
+theorem CI_drainBack_reverse {step back cyc n} (h : IsCycle step back cyc n) (fuel : Nat) (hf : n ≤ fuel) :
+    CI.drainBack back (CI.new (cyc 0)) fuel = ((List.range n).map cyc).reverse := by
+  rw [CI_drainBack_spec h fuel 0 _ (CI_new_inv h)]
+  have : min fuel (n - 0) = n := by omega
+  rw [this]
+  apply List.ext_getElem
+  · simp
+  · intro i h1 h2
+    simp only [List.length_map, List.length_range'] at h1
+    simp only [List.getElem_map, List.getElem_range', List.getElem_reverse, List.length_map, List.length_range,
+      List.getElem_range]
+    congr 1; omega
+theorem orbit_length_le (step : Nat → Nat) (start fuel cur : Nat) : (orbit step start fuel cur).length ≤ fuel := by
+  induction fuel generalizing cur with
+  | zero => simp [orbit]
+  | succ n ih =>
+    simp only [orbit]
+    split
+    · simp
+    · simp only [List.length_cons]; have := ih (step cur); omega
+
+theorem orbit_eq_map_iter (step : Nat → Nat) (start fuel : Nat) :
+    orbit step start fuel start = (List.range (orbit step start fuel start).length).map (fun i => iter step i start) := by
+  apply List.ext_getElem
+  · simp
+  · intro i h1 h2
+    rw [orbit_getElem _ _ _ _ _ h1]; simp
+
 end Spade
